@@ -74,7 +74,7 @@ def bn_configs():
         for affine in (True, False):
             for track in (True, False):
                 for rank in (2, 3, 4):
-                    out.append({"momentum": mom, "affine": affine, "track": track, "rank": rank, "eps": 1e-5 if rank != 3 else 0.1})
+                    out.append({"momentum": mom, "affine": affine, "track": track, "rank": rank, "eps": 0.1 if (rank == 3 or (rank == 4 and affine) or (rank == 2 and not affine and not track)) else 1e-5})
     return out
 
 def bn_batches(rank):
